@@ -46,13 +46,16 @@ func runParserHistory(c *Ctx, exprs []string) {
 			for _, b := range []binding{{"a", vInt(6)}, {"b", vInt(3)}, {"x", vStr("s")}} {
 				vars.Add(variables.NewVariable(b.name, b.val))
 			}
-			ev := func(cc *calculator.ExpressionCalculator) string {
-				if err := cc.SetExpression(e); err != nil {
+			ev := func(cc *calculator.ExpressionCalculator, viaTokens bool) string {
+				if viaTokens {
+					// every second step arrives as tokens: the entry point must not matter for what is evaluated
+					cc.SetOriginalTokens(exprTokens(e))
+				} else if err := cc.SetExpression(e); err != nil {
 					return "err " + errCode(err)
 				}
 				return outcome(cc.EvaluateUsingVariables(vars))
 			}
-			g2, w2 := ev(calc), ev(calculator.NewExpressionCalculator())
+			g2, w2 := ev(calc, i%2 == 1), ev(calculator.NewExpressionCalculator(), i%2 == 1)
 			if g2 != w2 && note == "" {
 				note = fmt.Sprintf("step %d %q: reused calculator gives %s, fresh calculator gives %s", i, e, g2, w2)
 			}
